@@ -348,6 +348,22 @@ push0_set_send_buf_len(void *arg, const void *buf, size_t sz, nni_type t)
 	}
 	nni_mtx_lock(&s->m);
 	rv = nni_lmq_resize(&s->wq, (size_t) val);
+	// Senders that were blocked on the full queue move in now, in order:
+	// otherwise a later send would overtake them through the new room.
+	while (!nni_lmq_full(&s->wq)) {
+		nni_aio *a;
+		nni_msg *m;
+		size_t   l;
+		if ((a = nni_list_first(&s->aq)) == NULL) {
+			break;
+		}
+		nni_aio_list_remove(a);
+		m = nni_aio_get_msg(a);
+		l = nni_msg_len(m);
+		nni_lmq_put(&s->wq, m);
+		nni_aio_set_msg(a, NULL);
+		nni_aio_finish(a, 0, l);
+	}
 	// Changing the size of the queue can affect our readiness.
 	if (!nni_lmq_full(&s->wq)) {
 		nni_pollable_raise(&s->writable);
